@@ -9,6 +9,7 @@ Definition pc_ok (s:st) (c:pc) : Prop :=
   | AccAck n i => nth_error (hdrs s) i = Some n
   | Done (AccOk n i) => nth_error (hdrs s) i = Some n /\ nth_error (acks s) i = Some (Some n)
   | Done (DialOk n i) => nth_error (acks s) i = Some (Some n)
+  | Done (Sent n i) => nth_error (hdrs s) i = Some n
   | DialWait n i => nth_error (hdrs s) i = Some n
   | TwWait k p | TwLock k p _ | TwDrain k p => nth_error (owners s) p = Some k
   | _ => True
@@ -103,7 +104,7 @@ Proof.
       * intros p i Hp. destruct (I_buf _ I _ _ Hp) as (k & A & B). exists k; split; auto. apply nth_app_mono; auto.
       * intros i a Hi. apply nth_app_inv in Hi. destruct Hi as [Hi|[_ Hi]]; [|discriminate]. apply nth_app_mono. eapply I_ack; eauto.
       * inv_thr I (ntid s).
-        -- rewrite nth_error_app2 by lia. rewrite Nat.sub_diag. reflexivity.
+        -- destruct (sender_waits_ack P); simpl; rewrite nth_error_app2 by lia; rewrite Nat.sub_diag; reflexivity.
         -- eapply pc_ok_ext; [exact X|]. exact (I_thr _ I _ _ Hlk).
     + destruct (lock_free s); [|discriminate]. destruct (get_stream s n) as [s1 p] eqn:G.
       destruct (get_stream_inv _ _ _ _ I G) as (I1 & X & Hp & Ht & _). inversion H; subst; clear H.
@@ -148,7 +149,8 @@ Proof.
         -- eapply pc_ok_ext; [exact X|]. exact (I_thr _ I _ _ Hlk).
     + (* TwWait *) destruct (nth_error (dones s) p) as [[|]|]; try discriminate. inversion H; subst; clear H.
       constructor; simpl; try apply I. inv_thr I t; auto.
-    + (* TwLock *) destruct (lock_free s); [|discriminate]. destruct tmo; inversion H; subst; clear H.
+    + (* TwLock *) destruct (lock_free s); [|discriminate].
+      destruct (tmo && expiry_drains P); inversion H; subst; clear H.
       * constructor; simpl; try apply I.
         -- intros k0 p0 Hk. apply alookup_adel in Hk. eapply I_map; eauto.
         -- inv_thr I t; auto.
@@ -164,9 +166,11 @@ Proof.
         constructor; simpl; try apply I. inv_thr I t; auto.
   - (* Fire *) destruct (tlookup (thr s) t) as [c|] eqn:Et; [|discriminate].
     pose proof (I_thr _ I _ _ Et) as Hc. destruct c as [n i| |n p|n i|k p|k p tmo|k p|r]; simpl in Hc; try discriminate.
-    + destruct (lock_free s); [|discriminate]. inversion H; subst; clear H. constructor; simpl; try apply I.
-      * intros k0 p0 Hk. apply alookup_adel in Hk. eapply I_map; eauto.
-      * inv_thr I t; auto.
+    + destruct (taker_timeout_deletes P).
+      * destruct (lock_free s); [|discriminate]. inversion H; subst; clear H. constructor; simpl; try apply I.
+        -- intros k0 p0 Hk. apply alookup_adel in Hk. eapply I_map; eauto.
+        -- inv_thr I t; auto.
+      * inversion H; subst; clear H. constructor; simpl; try apply I. inv_thr I t; auto.
     + inversion H; subst; clear H. constructor; simpl; try apply I. inv_thr I t; auto.
 Qed.
 
@@ -221,7 +225,7 @@ Proof.
         + intros Hk. inversion Hk. exfalso. eapply Hc; eauto.
         + apply (J_drain _ J). }
     destruct o as [n|n|].
-    + inversion H; subst. apply G; auto; discriminate.
+    + inversion H; subst. apply G; auto. intros k p; destruct (sender_waits_ack P); discriminate.
     + destruct (lock_free s); [|discriminate]. destruct (get_stream s n) as [s1 p] eqn:E.
       destruct (get_stream_thr _ _ _ _ E) as (A & B & C). inversion H; subst. apply G; auto; discriminate.
     + inversion H; subst. apply G; auto; discriminate.
@@ -257,7 +261,7 @@ Proof.
     + destruct (nth_error (bufs s) p) as [[i|]|]; try discriminate. inversion H; subst. apply M; auto; discriminate.
     + destruct (Nat.ltb i (length (acks s))); [|discriminate]. inversion H; subst. apply M; auto; discriminate.
     + destruct (nth_error (dones s) p) as [[|]|]; try discriminate. inversion H; subst. apply M; auto; discriminate.
-    + destruct (lock_free s) eqn:LF; [|discriminate]. apply lock_free_none in LF. destruct tmo; inversion H; subst; clear H.
+    + destruct (lock_free s) eqn:LF; [|discriminate]. apply lock_free_none in LF. destruct (tmo && expiry_drains P); inversion H; subst; clear H.
       * (* takes the mutex *)
         constructor; simpl.
         -- intros t' c'. rewrite tlookup_tset. destruct (Nat.eqb_spec t' t); [subst; intros _; eapply J_tid; eauto|apply (J_tid _ J)].
@@ -287,7 +291,7 @@ Proof.
         + intros Hk. inversion Hk. exfalso. eapply Hc0; eauto.
         + apply (J_drain _ J). }
     destruct c as [n i| |n p|n i|k p|k p tmo|k p|r]; try discriminate.
-    + destruct (lock_free s); [|discriminate]. inversion H; subst. apply M; auto; discriminate.
+    + destruct (taker_timeout_deletes P); [destruct (lock_free s); [|discriminate]|]; inversion H; subst; apply M; auto; discriminate.
     + inversion H; subst. apply M; auto; discriminate.
 Qed.
 
@@ -352,7 +356,7 @@ Proof.
       * intros i o Hi Ho. apply nth_app_inv in Ho. destruct Ho as [Ho|[_ ->]]; [eapply K_fresh; eauto|auto].
       * intros p i Hp. destruct (K_buf _ K _ _ Hp) as [A B]. split; auto. apply nth_app_mono; auto.
       * apply (K_uniq _ K).
-      * intros t c. rewrite tlookup_tset. destruct (Nat.eqb_spec t (ntid s)); [intros Hk; inversion Hk; exact Logic.I|].
+      * intros t c. rewrite tlookup_tset. destruct (Nat.eqb_spec t (ntid s)); [intros Hk; inversion Hk; destruct (sender_waits_ack P); exact Logic.I|].
         intros Hk. eapply pc_taker_mono; [|exact (K_thr _ K _ _ Hk)]. simpl. intros; apply nth_app_mono; auto.
     + destruct (lock_free s); [|discriminate]. destruct (get_stream s n) as [s1 p] eqn:E.
       destruct (get_stream_bufs _ _ _ _ E) as (A & B & C & D & F). inversion H; subst; clear H.
@@ -431,7 +435,7 @@ Proof.
       * intros t' c'. rewrite tlookup_tset. destruct (Nat.eqb_spec t' t).
         -- intros Hk. inversion Hk; subst. simpl. apply nth_upd_eq; auto.
         -- intros Hk. pose proof (K_thr _ K _ _ Hk) as X.
-           destruct c' as [| | |n' i'| | | |[n' i'| | | |]]; simpl in *; auto.
+           destruct c' as [| | |n' i'| | | |[n' i'| | | | |]]; simpl in *; auto.
            ++ destruct (Nat.eq_dec i i') as [<-|Ne]; [congruence|rewrite nth_upd_ne; auto].
            ++ destruct (Nat.eq_dec i i') as [<-|Ne]; [congruence|rewrite nth_upd_ne; auto].
     + (* AccAck *)
@@ -442,7 +446,7 @@ Proof.
     + destruct (nth_error (dones s) p) as [[|]|]; try discriminate. inversion H; subst; clear H.
       constructor; simpl; try apply K.
       intros t' c'. rewrite tlookup_tset. destruct (Nat.eqb_spec t' t); [intros Hk; inversion Hk; exact Logic.I|apply (K_thr _ K)].
-    + destruct (lock_free s); [|discriminate]. destruct tmo; inversion H; subst; clear H;
+    + destruct (lock_free s); [|discriminate]. destruct (tmo && expiry_drains P); inversion H; subst; clear H;
         (constructor; simpl; try apply K;
          intros t' c'; rewrite tlookup_tset; destruct (Nat.eqb_spec t' t); [intros Hk; inversion Hk; exact Logic.I|apply (K_thr _ K)]).
     + (* TwDrain *)
@@ -457,8 +461,8 @@ Proof.
         intros t' c'. rewrite tlookup_tset. destruct (Nat.eqb_spec t' t); [intros Hk; inversion Hk; exact Logic.I|apply (K_thr _ K)].
   - destruct (tlookup (thr s) t) as [c|] eqn:Et; [|discriminate].
     destruct c as [n i| |n p|n i|k p|k p tmo|k p|r]; try discriminate.
-    + destruct (lock_free s); [|discriminate]. inversion H; subst; clear H. constructor; simpl; try apply K.
-      intros t' c'. rewrite tlookup_tset. destruct (Nat.eqb_spec t' t); [intros Hk; inversion Hk; exact Logic.I|apply (K_thr _ K)].
+    + destruct (taker_timeout_deletes P); [destruct (lock_free s); [|discriminate]|]; inversion H; subst; clear H; constructor; simpl; try apply K;
+      intros t' c'; rewrite tlookup_tset; (destruct (Nat.eqb_spec t' t); [intros Hk; inversion Hk; exact Logic.I|apply (K_thr _ K)]).
     + inversion H; subst; clear H. constructor; simpl; try apply K.
       intros t' c'. rewrite tlookup_tset. destruct (Nat.eqb_spec t' t); [intros Hk; inversion Hk; exact Logic.I|apply (K_thr _ K)].
 Qed.
@@ -569,7 +573,7 @@ Proof.
         -- intros u Hu. apply nth_upd_other; auto.
     + destruct (Nat.ltb i (length (acks s))); [|discriminate]. inversion H; subst; clear H. constructor; simpl; apply Q.
     + destruct (nth_error (dones s) p) as [[|]|]; try discriminate. inversion H; subst; clear H. constructor; simpl; apply Q.
-    + destruct (lock_free s); [|discriminate]. destruct tmo; inversion H; subst; clear H; constructor; simpl; apply Q.
+    + destruct (lock_free s); [|discriminate]. destruct (tmo && expiry_drains P); inversion H; subst; clear H; constructor; simpl; apply Q.
     + destruct (nth_error (bufs s) p) as [[i|]|] eqn:Eb; try discriminate.
       * inversion H; subst; clear H. destruct (K_buf _ K _ _ Eb) as [Hi _].
         assert (Lc : i < length (closed s)) by (rewrite (Q_len _ Q); pose proof (K_nacc _ K); lia).
@@ -582,7 +586,7 @@ Proof.
       * destruct (drain_has_default P); [|discriminate]. inversion H; subst; clear H. constructor; simpl; apply Q.
   - destruct (tlookup (thr s) t) as [c|] eqn:Et; [|discriminate].
     destruct c as [n i| |n p|n i|k p|k p tmo|k p|r]; try discriminate.
-    + destruct (lock_free s); [|discriminate]. inversion H; subst; clear H. constructor; simpl; apply Q.
+    + destruct (taker_timeout_deletes P); [destruct (lock_free s); [|discriminate]|]; inversion H; subst; clear H; constructor; simpl; apply Q.
     + inversion H; subst; clear H. constructor; simpl; apply Q.
 Qed.
 
@@ -604,7 +608,7 @@ Theorem parked_can_fire P s t : lock_free s = true ->
   (exists n p, tlookup (thr s) t = Some (AccWait n p)) \/ (exists k p, tlookup (thr s) t = Some (TwWait k p)) ->
   step P s (Fire t) <> None.
 Proof.
-  intros LF [[n [p H]]|[k [p H]]]; simpl; rewrite H; [rewrite LF|]; discriminate.
+  intros LF [[n [p H]]|[k [p H]]]; simpl; rewrite H; [destruct (taker_timeout_deletes P); rewrite ?LF|]; discriminate.
 Qed.
 
 (* a dialer whose stream was processed is answered as soon as the stream is taken+acked or closed *)
@@ -613,4 +617,43 @@ Theorem dial_answered P s t n i : tlookup (thr s) t = Some (DialWait n i) ->
   step P s (Step t) <> None.
 Proof.
   intros H [[a Ha]|[Ha Hc]]; simpl; rewrite H, Ha; [discriminate|rewrite Hc; discriminate].
+Qed.
+
+(* ================= the gRPC broker instance: its expiry handler never takes the mutex for long ================= *)
+Lemma step_lock_none P s a s' : expiry_drains P = false -> lock s = None -> step P s a = Some s' -> lock s' = None.
+Proof.
+  intros HE L H. destruct a as [o|t|t]; simpl in H.
+  - destruct o as [n|n|].
+    + inversion H; subst; simpl; auto.
+    + destruct (lock_free s); [|discriminate]. destruct (get_stream s n) as [s1 p] eqn:E.
+      destruct (get_stream_thr _ _ _ _ E) as (_ & B & _). inversion H; subst; simpl. congruence.
+    + inversion H; subst; simpl; auto.
+  - destruct (tlookup (thr s) t) as [c|]; [|discriminate].
+    destruct c as [n i| |n p|n i|k p|k p tmo|k p|r]; try discriminate.
+    + destruct (nth_error (acks s) i) as [[a|]|]; try discriminate; [inversion H; subst; simpl; auto|].
+      destruct (nth_error (closed s) i) as [[|]|]; try discriminate. inversion H; subst; simpl; auto.
+    + destruct (nth_error (hdrs s) (nacc s)) as [k|]; [|discriminate].
+      destruct (lock_free s); [|discriminate]. destruct (get_stream s k) as [s1 p] eqn:E.
+      destruct (get_stream_thr _ _ _ _ E) as (_ & B & _).
+      destruct (nth_error (bufs s1) p) as [[j|]|]; try discriminate; inversion H; subst; simpl;
+        try (destruct (run_closes_dropped P); simpl); congruence.
+    + destruct (nth_error (bufs s) p) as [[i|]|]; try discriminate. inversion H; subst; simpl; auto.
+    + destruct (Nat.ltb i (length (acks s))); [|discriminate]. inversion H; subst; simpl; auto.
+    + destruct (nth_error (dones s) p) as [[|]|]; try discriminate. inversion H; subst; simpl; auto.
+    + destruct (lock_free s); [|discriminate]. rewrite HE, andb_false_r in H. inversion H; subst; simpl; auto.
+    + destruct (nth_error (bufs s) p) as [[i|]|]; try discriminate; [inversion H; subst; simpl; auto|].
+      destruct (drain_has_default P); [|discriminate]. inversion H; subst; simpl; auto.
+  - destruct (tlookup (thr s) t) as [c|]; [|discriminate].
+    destruct c as [n i| |n p|n i|k p|k p tmo|k p|r]; try discriminate.
+    + destruct (taker_timeout_deletes P); [destruct (lock_free s); [|discriminate]|]; inversion H; subst; simpl; auto.
+    + inversion H; subst; simpl; auto.
+Qed.
+
+Theorem never_locked P s : expiry_drains P = false -> reachable P s -> lock s = None.
+Proof.
+  intros HE [l H]. assert (G : forall l s0, lock s0 = None -> run P s0 l = Some s -> lock s = None).
+  { clear H. clear l. induction l as [|a l IH]; simpl; intros s0 L H.
+    - inversion H; subst; auto.
+    - destruct (step P s0 a) as [s1|] eqn:E; [|discriminate]. eapply IH; [eapply step_lock_none; eauto|exact H]. }
+  exact (G l init eq_refl H).
 Qed.
